@@ -34,7 +34,7 @@ def damaged_texts(rng, n):
     base = [t for _, t in corpus.corpus()]
     out = []
     kinds = ['valid', 'insert', 'delete', 'truncate', 'dup_word', 'random', 'insert_end', 'locked_name', 'blank_lines',
-             'undeclared', 'long_line', 'temporal_edge']
+             'undeclared', 'long_line', 'temporal_edge', 'exotic_linebreak']
     for i in range(n):
         kind = kinds[i % len(kinds)]
         t = rng.choice(base)
@@ -68,6 +68,19 @@ def damaged_texts(rng, n):
         elif kind == 'undeclared':
             # a concept that nothing declares, in a position that cannot define it -> compilation error
             t = t.rstrip() + '\nIt is prohibited that there is a ' + rng.choice(['zorg', 'blip', 'quux']) + ' with id 1.\n'
+        elif kind == 'exotic_linebreak':
+            # characters that str.splitlines() takes for line boundaries but the grammar does not (form feed is legal white space):
+            # placed before a lexical error, so that the diagnostic is built for a (line, column) counted differently
+            lines = t.split('\n')
+            j = rng.randrange(len(lines))
+            ch = rng.choice(['\x0c', '\x0b', '\x1c', '\x1d', '\x1e', '\x85', '\u2028', '\u2029', '\r'])
+            k = rng.randrange(len(lines[j]) + 1)
+            if rng.random() < 0.5:
+                lines[j] = lines[j][:k] + ch + lines[j][k:]
+            else:
+                lines.insert(j, ch)
+            lines[-1] = lines[-1] + rng.choice([' %', '\nEvery movee is.', ' $$', '\n@'])
+            t = '\n'.join(lines)
         elif kind == 'temporal_edge':
             # temporal concept declarations with degenerate numbers: zero / huge lengths, reversed and one-point ranges, malformed values
             unit = rng.choice(['minutes', 'days', 'steps'])
@@ -379,8 +392,11 @@ def main(tier):
             continue
         mm.append((real, ('c18.msg', {'line': out['line'], 'col': out['col'], 'ch': out['char'], 'context': ctx,
                                       'linetext': line_text, 'allowed': allowed})))
-        # the character at the cited position is the unexpected character
-        if out['col'] - 1 < len(line_text) and line_text[out['col'] - 1] != out['char']:
+        # the character at the cited position is the unexpected character (lines as the grammar counts them: separated by \n only;
+        # str.splitlines(), which main() uses to pick the line it echoes, also breaks at form feeds and other separators)
+        nl_lines = text.split('\n')
+        nl_line = nl_lines[out['line'] - 1] if 1 <= out['line'] <= len(nl_lines) else ''
+        if out['col'] - 1 < len(nl_line) and nl_line[out['col'] - 1] != out['char']:
             run.violation('e2e/position-char', 'character at the cited (line, col) is not the reported one',
                           {'text': text, 'line': out['line'], 'col': out['col'], 'char': out['char']})
     if mm:
